@@ -38,6 +38,9 @@ fn damage(t: &mut Tape, toks: &[Tok], table: &[OpSpec], tk: TableKind) -> Damage
     let mut interior = false;
     // illegal characters may also be glued to their neighbours without a space
     let mut glue_illegal = false;
+    // an appended `.` operator (value table) may be glued to a literal: `1.` is the literal `1`
+    // followed by the operator, by the documented literal pattern `[0-9]+(\.[0-9]+)?`
+    let mut glue_last = false;
     let kind: &'static str = match kind_idx {
         0 => {
             // delete one parenthesis
@@ -66,6 +69,9 @@ fn damage(t: &mut Tape, toks: &[Tok], table: &[OpSpec], tk: TableKind) -> Damage
             let bins: Vec<&OpSpec> = table.iter().filter(|o| o.bin.is_some()).collect();
             let o = t.pick(&bins);
             toks.push(Tok::op(o.name));
+            if tk != TableKind::Dyn && o.name == "." && t.chance(60) {
+                glue_last = true;
+            }
             "append binary operator"
         }
         3 => {
@@ -126,7 +132,9 @@ fn damage(t: &mut Tape, toks: &[Tok], table: &[OpSpec], tk: TableKind) -> Damage
         if i > 0 {
             let a = &toks[i - 1];
             let ill = ILLEGAL.contains(&a.text.as_str()) || ILLEGAL.contains(&tk_.text.as_str());
-            if must_space(a, tk_, table)
+            if glue_last && i + 1 == toks.len() {
+                // no space
+            } else if must_space(a, tk_, table)
                 || (ill && !glue_illegal)
                 || (ill && (a.text == "3.4." || tk_.text == "3.4."))
                 || (a.kind == TokKind::Operand && tk_.kind == TokKind::Operand)
